@@ -38,9 +38,9 @@ let () =
         match (match split_ws line with
                | ["W"; variant; ops] -> run_writes_line variant ops None; Some ("", "", "", "", None, None)
                | ["W"; variant; ops; fill] -> run_writes_line variant ops (Some (z_of_string fill)); Some ("", "", "", "", None, None)
-               | ["R"; arch; fill; len] ->
+               | "R" :: arch :: fill :: len :: be ->
                  let show = function CNum x -> string_of_z x | _ -> "P" in
-                 print_endline (match run_read (z_of_string arch) (z_of_string fill) (z_of_string len) with
+                 print_endline (match run_read (z_of_string arch) (z_of_string fill) (z_of_string len) (be = ["B"]) with
                                 | RdVariant (v, sz, ip) -> "rd=" ^ string_of_name v ^ ";rsz=" ^ show sz ^ ";rip=" ^ show ip
                                 | RdReadFailure -> "rd=RF"
                                 | RdUnknown -> "rd=UC");
